@@ -142,6 +142,7 @@ class Doc:
         self.after_ws = True          # nothing emitted yet: a token may start right away
         self.glue_close = True        # a closing bracket may follow the previous token without whitespace
         self.alpha = ALPHA2 if dia == 2 else ALPHA1
+        self.errs = []                # expected reports other than over-length lines: (code, line), in order
 
     def emit(self, units):
         for c in units:
@@ -257,6 +258,17 @@ class Doc:
         self.after_ws = False
         self.glue_close = False       # `_name]`, `data_x]`, `save_]` would swallow the bracket
 
+    def reserved(self):
+        """an unquoted reserved word: reported as CIF_RESERVED_WORD (132) on its line and dropped (no token)"""
+        r = self.r
+        w = [ord(c.upper()) if r.random() < 0.4 else ord(c) for c in r.choice(["data_", "stop_", "global_"])]
+        self.before()
+        self.emit(w)
+        self.errs.append((132, self.line))
+        # the word ends at whitespace; the scanner then goes on as if the word had not been there
+        self.after_ws = False
+        self.glue_close = False
+
     def name(self):
         body = [c for c in self.rand_string(self.r.choice([1, 2, 5])) if not is_ws(c)] or u("n")
         self.word(NAME, [ord("_")] + body, [ord("_")] + body)
@@ -346,7 +358,9 @@ def request(dia, fill, pol, units, annot=None):
 
 
 def annotated(doc, pol="a"):
-    errs = ",".join("%d:%d" % (OVERLENGTH, l) for l in expected_overlength(doc.units)) or "-"
+    over = expected_overlength(doc.units)
+    assert not (over and doc.errs)
+    errs = ",".join("%d:%d" % e for e in ([(OVERLENGTH, l) for l in over] + doc.errs)) or "-"
     return request(doc.dia, "f", pol, doc.units, "X%s|%s" % (doc.toks_field(), errs))
 
 
@@ -386,6 +400,23 @@ def gen_token_soup(r, dia):
             d.value(key=True)
         else:
             d.value()
+    d.finish()
+    return d
+
+
+def gen_reserved(r, dia):
+    """a token sequence with unquoted reserved words (data_, stop_, global_ in any case) sprinkled in"""
+    d = Doc(dia, r)
+    for _ in range(r.randint(1, 6)):
+        k = r.random()
+        if k < 0.4:
+            d.reserved()
+        elif k < 0.7:
+            d.value()
+        elif k < 0.85:
+            d.name()
+        else:
+            d.kw("loop_", LOOPKW)
     d.finish()
     return d
 
@@ -527,6 +558,7 @@ def generate(seed, tier):
     r = rng(seed, FAMILY)
     quick = tier == "quick"
     n_doc, n_soup, n_pres, n_long, n_mut, n_rand = (500, 700, 500, 90, 1200, 500) if quick else (8000, 10000, 8000, 1500, 20000, 8000)
+    n_res = 150 if quick else 2500
     pool = []
     for i in range(n_doc):
         d = gen_document(r, 2 if i % 2 == 0 else 1)
@@ -538,6 +570,10 @@ def generate(seed, tier):
         yield annotated(d)
     for i in range(n_pres):
         d = gen_presentations(r, 2 if i % 3 != 0 else 1)
+        pool.append(d)
+        yield annotated(d)
+    for i in range(n_res):
+        d = gen_reserved(r, 2 if i % 2 == 0 else 1)
         pool.append(d)
         yield annotated(d)
     for i in range(n_long):
